@@ -248,6 +248,10 @@ class ExprBuilder:
                 vn = el.get("variant") or str(el["idx"])
                 if e[0] == "agg" and isinstance(e[1], str) and e[1].rsplit("::", 1)[-1] == vn and not e[1].startswith("closure:"):
                     pass      # (Some{0: x} as Some) is the literal itself; its fields are read next
+                elif vn == "Some" and e[0] == "call" and (e[1].endswith("<impl [T]>::get") or e[1].endswith("Vec::<T, A>::get")) and len(e[2]) == 2 \
+                        and not (e[2][1][0] == "agg" and "Range" in str(e[2][1][1])) and not (e[2][1][0] == "call" and "Range" in e[2][1][1]):
+                    # (xs.get(i) as Some).0 is xs[i]
+                    e = ("agg", "std::option::Option::Some", (("idx", e[2][0], e[2][1]),), ("0",))
                 elif vn == "Continue" and e[0] == "call" and (e[1].endswith("Try>::branch") or e[1].endswith("Try::branch")) and len(e[2]) == 1 \
                         and e[2][0][0] == "agg" and isinstance(e[2][0][1], str) and e[2][0][1].rsplit("::", 1)[-1] in ("Ok", "Some") and len(e[2][0][2]) == 1:
                     # (Ok(x)? as Continue).0 is x
